@@ -59,7 +59,8 @@ static void run_mc(std::vector<int> const& w, std::vector<long long> const& js, 
     std::vector<T> wt;
     for (int x : w) wt.push_back((T) ((long double) x * scale));
     std::vector<std::uint64_t> script;
-    for (long long j : js) { script.push_back(vt::dyadic(1, 1)); script.push_back(vt::dyadic((std::uint64_t) j, S24)); }
+    // the same canonical number for the point and for the selector: the order in which a call draws them is not prescribed
+    for (long long j : js) { script.push_back(vt::dyadic((std::uint64_t) j, S24)); script.push_back(vt::dyadic((std::uint64_t) j, S24)); }
     vt::script_engine e(vt::script_registry::add(script));
     mc_log<T> lg;
     std::size_t const n = w.size();
